@@ -177,6 +177,30 @@ pub fn run(ctx: &Ctx) -> i32 {
         if ti % 211 == (ctx.seed as usize % 211) { acc.sample(json!({"tree": m.show(), "subsets": 1u32 << k})) }
         acc
     }).reduce(Acc::new, Acc::merge);
+    // wide / deep shapes (array heads at 23/24/255/256, 24-deep wrapping): single and pair targets, both modes, three actions
+    let wide = families::wide_tier(th);
+    let accw = wide.par_iter().enumerate().with_max_len(1).map(|(wi, (wn, m))| {
+        let mut acc = Acc::new();
+        let Ok(e) = catch(|| bind::build(m, 0)) else { return acc };
+        let ds = m.distinct_digests();
+        let picks: Vec<usize> = (0..ds.len()).filter(|i| *i < 6 || i % 61 == 0 || *i + 2 >= ds.len()).collect();
+        let mut sets: Vec<Vec<D>> = picks.iter().map(|i| vec![ds[*i]]).collect();
+        for w in picks.windows(2) { sets.push(vec![ds[w[0]], ds[w[1]]]) }
+        for tv in sets { let t: HashSet<D> = tv.iter().cloned().collect(); let tset = bind::dset(&tv);
+            for revealing in [false, true] { for (kind, action) in super::c02::actions() {
+                acc.inc("elisions");
+                let want = ops::elide(m, &t, revealing, kind);
+                match catch(|| e.elide_set_with_action(&tset, revealing, &action)) {
+                    Err(_) => acc.inc("panics_no_result_counted_under_C16"),
+                    Ok(r) => { if let Some((path, what)) = matches(&bind::observe(&r), &bind::expected(&want), &HashSet::new(), kind, "") { acc.viol(format!("C03|wide|{}|{kind:?}|{what}", if revealing { "revealing" } else { "removing" }), format!("wide shape {wn}: result differs from the statement's semantics at {path}"), format!("wide/{wn}/{}/rev{}/{kind:?}", tv.iter().map(|d| hex::encode(&d[..3])).collect::<Vec<_>>().join("+"), revealing as u8), json!({"shape": wn})) }
+                        else if kind == Kind::Elided && Some(r.to_cbor_data()) != want.encode() { acc.viol("C03|wide|Elided|bytes", "serialised result is not the encoding of the model result", format!("wide/{wn}"), json!({"shape": wn})) }
+                        if want != *m { acc.nontrivial(&("wide", wi, tv.len(), revealing, kind)); } }
+                }
+            } }
+        }
+        acc
+    }).reduce(Acc::new, Acc::merge);
+    let acc = acc.merge(accw);
     // unelide: every (placeholder, candidate) pair of a family
     let fam: Vec<M> = { let mut f = families::marked(if th { 5 } else { 4 }); f.extend(families::plain(3)); f };
     let envs: Vec<Envelope> = fam.iter().map(|m| bind::build(m, 0)).collect();
